@@ -172,12 +172,28 @@ def _targets(t):
     return {x.id for x in ast.walk(t) if isinstance(x, ast.Name)}
 
 
+LEN_COINCIDENCE_OK = {
+    ('LogLikelihood', '__init__', 'len(observations)!=n_outputs'):
+        'documented convenience: flat observations for a single-output '
+        'problem are wrapped (inside `if n_outputs == 1`)',
+    ('LogLikelihood', '__init__', 'len(times)!=n_outputs'):
+        'documented convenience: flat times for a single-output problem',
+}
 # keywords whose default legitimately differs between functions
 DEFAULTS_DIFFER_OK = {
     'n_samples': 'samplers default to one sample (None), the filter '
                  'posterior to 100 simulated individuals',
     'shared_y': 'the two figure templates differ on purpose',
 }
+
+
+def _innermost_for(node, fn):
+    cur = getattr(node, '_parent', None)
+    while cur is not None and cur is not fn:
+        if isinstance(cur, (ast.For, ast.While)):
+            return cur
+        cur = getattr(cur, '_parent', None)
+    return None
 
 
 def scoped(name, files):
@@ -322,10 +338,23 @@ def r00(ctx, repo, files=None):
                 cur = p
             if in_for_target:
                 continue
-            bad += 1
             stmt = nodes[0]
             while not isinstance(stmt, ast.stmt):
                 stmt = stmt._parent
+            # an unused *size query* (`n = len(x)`, `n, d = x.shape`) is a
+            # harmless left-over of a refactoring; what matters is whether
+            # x itself is still used, which L4 / the shape rules decide
+            rv = getattr(stmt, 'value', None)
+            if isinstance(rv, ast.Call) and U(rv.func) in ('len', 'int') \
+                    and rv.args and not any(isinstance(
+                        c, ast.Call) for c in ast.walk(rv.args[0])):
+                continue
+            if rv is not None and (U(rv).endswith(('.shape', '.size',
+                                                    '.ndim'))
+                                   or (isinstance(rv, ast.Subscript) and U(
+                                       rv.value).endswith('.shape'))):
+                continue
+            bad += 1
             ctx.violation(
                 rule, repo.loc(nodes[0], cls, fn.name), construct,
                 'L3 never read %s' % v,
@@ -515,6 +544,213 @@ def r00(ctx, repo, files=None):
                         'of axis lengths, so a correctly laid-out array '
                         'whose two axes happen to have equal length is '
                         'transposed as well' % (arr, U(st.test)[:60]))
+        # L11b: any non-raising branch (statement or conditional expression)
+        # decided by the *equality of two run-time lengths*: the library
+        # dispatches on rank (`x.ndim == k`) and on constant counts only; a
+        # layout or shortcut chosen because two sizes happen to agree is
+        # wrong for the inputs where they agree by coincidence
+        def _len_coincidence(test):
+            for c in ast.walk(test):
+                if not (isinstance(c, ast.Compare) and len(c.ops) == 1
+                        and isinstance(c.ops[0], (ast.Eq, ast.NotEq))):
+                    continue
+                l_, r_ = c.left, c.comparators[0]
+                for a_, b_ in ((l_, r_), (r_, l_)):
+                    sa = U(a_)
+                    is_len = (isinstance(a_, ast.Call) and U(a_.func) == 'len'
+                              ) or '.shape[' in sa or sa.endswith('.size')
+                    if is_len and not isinstance(b_, ast.Constant):
+                        # a collection compared with its own de-duplicated /
+                        # filtered version is a property of one value
+                        na = {x.id for x in ast.walk(a_)
+                              if isinstance(x, ast.Name)} - {'len', 'np'}
+                        nb = {x.id for x in ast.walk(b_)
+                              if isinstance(x, ast.Name)} - {'len', 'np'}
+                        if na & nb:
+                            continue
+                        return c
+            return None
+        for st in ast.walk(fn):
+            if isinstance(st, ast.If):
+                c = _len_coincidence(st.test)
+                if c is None or any(isinstance(x, ast.Raise)
+                                    for b in st.body + st.orelse
+                                    for x in ast.walk(b)):
+                    continue
+            elif isinstance(st, ast.IfExp):
+                c = _len_coincidence(st.test)
+                if c is None:
+                    continue
+            else:
+                continue
+            if (cls, fn.name, U(c).replace(' ', '')) in LEN_COINCIDENCE_OK:
+                continue
+            bad += 1
+            ctx.violation(
+                rule, repo.loc(st, cls, fn.name), construct,
+                'L11 length coincidence %s' % U(c)[:40],
+                'a branch is chosen because `%s` holds: two run-time sizes '
+                'that agree by coincidence (as many measurements as union '
+                'time points, as many individuals as covariates) take the '
+                'shortcut / the other layout although it does not apply'
+                % U(c)[:60])
+        # L25: `value or <number>` as a default for a numeric value: a valid
+        # 0 is replaced, a missing value that is NaN (truthy) is kept
+        for b_ in ast.walk(fn):
+            if isinstance(b_, ast.BoolOp) and isinstance(b_.op, ast.Or) \
+                    and isinstance(b_.values[-1], ast.Constant) \
+                    and isinstance(b_.values[-1].value, (int, float)) \
+                    and not isinstance(b_.values[-1].value, bool):
+                bad += 1
+                ctx.violation(
+                    rule, repo.loc(b_, cls, fn.name), construct,
+                    'L25 or-default %s' % U(b_)[:30],
+                    '`%s` supplies a default through truthiness: a missing '
+                    'value that is NaN is truthy and is kept, a valid 0 is '
+                    'falsy and is replaced' % U(b_)[:60])
+        # L26: duplicates removed by comparing neighbours need sorted data
+        for c in ast.walk(fn):
+            if not (isinstance(c, ast.Compare) and len(c.ops) == 1
+                    and isinstance(c.ops[0], (ast.Eq, ast.NotEq))):
+                continue
+            l_, r_ = c.left, c.comparators[0]
+            if not (isinstance(l_, ast.Subscript)
+                    and isinstance(r_, ast.Subscript)
+                    and U(l_.value) == U(r_.value)):
+                continue
+            sl = {U(l_.slice).replace(' ', ''), U(r_.slice).replace(' ', '')}
+            if not any(x.startswith('1:') for x in sl) or not any(
+                    x.startswith(':-1') for x in sl):
+                continue
+            base = U(l_.value)
+            defs_ = [a for a in ast.walk(fn) if isinstance(a, ast.Assign)
+                     and any(U(t) == base for t in a.targets)
+                     and a.lineno <= c.lineno]
+            srt = defs_ and any(
+                isinstance(x, ast.Call) and (U(x.func) in (
+                    'np.sort', 'sorted', 'np.unique', 'np.lexsort',
+                    'np.argsort') or (isinstance(x.func, ast.Attribute)
+                                      and x.func.attr in ('sort',
+                                                          'sort_values')))
+                for x in ast.walk(defs_[-1].value))
+            if not srt:
+                bad += 1
+                ctx.violation(
+                    rule, repo.loc(c, cls, fn.name), construct,
+                    'L26 neighbour comparison on unsorted %s' % base,
+                    '`%s` detects repeated entries by comparing neighbours, '
+                    'but `%s` is not sorted at that point: repeats that are '
+                    'not adjacent survive' % (U(c)[:60], base))
+        # L27: groupby orders its result by the sorted keys; a positional
+        # use of that result is paired with tables kept in another order
+        for c in ast.walk(fn):
+            if isinstance(c, ast.Call) and isinstance(
+                    c.func, ast.Attribute) and c.func.attr == 'groupby' \
+                    and not any(k.arg == 'sort' and isinstance(
+                        k.value, ast.Constant) and k.value.value is False
+                        for k in c.keywords):
+                bad += 1
+                ctx.violation(
+                    rule, repo.loc(c, cls, fn.name), construct,
+                    'L27 groupby order',
+                    '`%s` returns its groups ordered by the *sorted* key '
+                    '(strings: "10" < "2"), not in the order of first '
+                    'appearance in which the library keeps its ID tables: '
+                    'a positional use pairs rows with the wrong individual'
+                    % U(c)[:60])
+        # L28: contradiction — `x in acc` treats x as an element of the list,
+        # `acc += x` treats it as a list of elements (a string is extended
+        # character by character)
+        for a_ in ast.walk(fn):
+            if isinstance(a_, ast.AugAssign) and isinstance(
+                    a_.op, ast.Add) and isinstance(a_.target, ast.Name) \
+                    and isinstance(a_.value, ast.Name):
+                acc, x_ = a_.target.id, a_.value.id
+                if any(isinstance(c, ast.Compare) and len(c.ops) == 1
+                       and isinstance(c.ops[0], (ast.In, ast.NotIn))
+                       and U(c.left) == x_ and U(c.comparators[0]) == acc
+                       for c in ast.walk(fn)):
+                    bad += 1
+                    ctx.violation(
+                        rule, repo.loc(a_, cls, fn.name), construct,
+                        'L28 element extended into %s' % acc,
+                        '`%s` extends the list by the *parts* of `%s` '
+                        '(characters of a string, entries of a tuple) while '
+                        '`%s in %s` in the same function treats it as one '
+                        'element: membership / uniqueness tests on the list '
+                        'no longer see the element' % (
+                            norm_stmt(a_), x_, x_, acc))
+        # L29: the index of an enumerate over a *filtered* array addresses
+        # another, unfiltered sequence
+        for l_ in ast.walk(fn):
+            if not (isinstance(l_, ast.For) and isinstance(
+                    l_.iter, ast.Call) and U(l_.iter.func) == 'enumerate'
+                    and l_.iter.args and isinstance(l_.iter.args[0], ast.Name)
+                    and isinstance(l_.target, ast.Tuple)
+                    and isinstance(l_.target.elts[0], ast.Name)):
+                continue
+            seq, idx = l_.iter.args[0].id, l_.target.elts[0].id
+            d_ = [a for a in ast.walk(fn) if isinstance(a, ast.Assign)
+                  and any(U(t) == seq for t in a.targets)
+                  and a.lineno < l_.lineno]
+            if not d_:
+                continue
+            last = sorted(d_, key=lambda a: a.lineno)[-1].value
+            filt = isinstance(last, ast.Subscript) and any(
+                isinstance(x, ast.Compare) for x in ast.walk(last.slice))
+            if not filt:
+                continue
+            for sub in ast.walk(l_):
+                if isinstance(sub, ast.Subscript) and U(sub.slice) == idx \
+                        and U(sub.value) != seq and isinstance(
+                            sub.ctx, ast.Load):
+                    bad += 1
+                    ctx.violation(
+                        rule, repo.loc(sub, cls, fn.name), construct,
+                        'L29 filtered index into %s' % U(sub.value)[:30],
+                        '`%s` is addressed with the position `%s` in `%s`, '
+                        'which was filtered (`%s`) before the loop: after an '
+                        'entry was dropped every later position refers to '
+                        'the wrong element of `%s`' % (
+                            U(sub), idx, seq, U(last)[:40], U(sub.value)))
+                    break
+        # L30: inside a loop, `acc[<the same block every time>] = <a value
+        # that changes per iteration>` keeps only the last iteration; a
+        # shared block that every element contributes to is accumulated
+        for l_ in ast.walk(fn):
+            if not isinstance(l_, ast.For):
+                continue
+            assigned = {x.id for x in ast.walk(l_) if isinstance(x, ast.Name)
+                        and isinstance(x.ctx, ast.Store)}
+            for st in ast.walk(l_):
+                if not (isinstance(st, ast.Assign) and len(st.targets) == 1
+                        and isinstance(st.targets[0], ast.Subscript)
+                        and isinstance(st.targets[0].value, ast.Name)):
+                    continue
+                t_ = st.targets[0]
+                if t_.value.id in assigned:
+                    continue
+                if any(isinstance(x, ast.Constant) and isinstance(
+                        x.value, str) for x in ast.walk(t_.slice)):
+                    continue        # a column of a frame / a dict entry
+                idx = {x.id for x in ast.walk(t_.slice)
+                       if isinstance(x, ast.Name)}
+                if idx & assigned or not any(
+                        isinstance(x, ast.Slice) for x in ast.walk(t_.slice)):
+                    continue
+                rhs = {x.id for x in ast.walk(st.value)
+                       if isinstance(x, ast.Name)}
+                if rhs & assigned and _innermost_for(st, fn) is l_:
+                    bad += 1
+                    ctx.violation(
+                        rule, repo.loc(st, cls, fn.name), construct,
+                        'L30 block overwritten per iteration',
+                        '`%s` writes the same block of `%s` in every '
+                        'iteration of the loop with a value that differs '
+                        'per iteration: only the last element\'s '
+                        'contribution survives (a block shared by all '
+                        'elements must be accumulated)' % (
+                            norm_stmt(st)[:60], t_.value.id))
         # L12: squeeze without axis turns a length-1 input into a 0-d
         # array (len() and indexing then fail)
         pset = {a.arg for a in fn.args.args + fn.args.kwonlyargs} - {'self'}
